@@ -229,7 +229,6 @@ PROPS = {
         "assumptions": ["BatchNumParallel >= 1 or fewer records than BatchSize (known finding C07-batch-hang)"],
     },
     "C01": {
-        "pending_props": True,
         "manifest": {
             "text": "Lean 4: Spec/Answer.lean states the property over records (REFUSED / referral / authoritative answer, "
                     "wildcard scope, NXDOMAIN, SOA in empty answers); Model/Codec.lean + Model/Serve.lean transcribe the line codec "
@@ -255,7 +254,6 @@ PROPS = {
         "assumptions": ["data files satisfy WellFormed (DESIGN.md section 6 C01)"],
     },
     "C02": {
-        "pending_props": True,
         "manifest": {
             "text": "Lean 4: order lemmas for reversed-name keys (ancestor below descendant regardless of location, sandwich "
                     "lemma, common-label-prefix arithmetic), equivalence of the v2 closest-key map lookup with the label-by-label "
@@ -402,5 +400,87 @@ PROPS = {
                 "IPv4/IPv6/mapped; inputs of the recorded defect classes kept out of the main stream; distinct = distinct (op, "
                 "output shape)",
         "assumptions": ["well-formed records (WF predicate in Props/C09.lean)"],
+    },
+    "C05": {
+        "shrink": False,
+        "run_timeout": 3600,
+        "manifest": {
+            "text": "Lean 4 theorems over the reload state machine Srv (served handle, path, per-instance content, disk per path, "
+                    "in-flight queries), each for EVERY interleaving of query starts / reads / finishes, reloads and publishes: "
+                    "visibility (+ reload_installs, visibility_exact), partial_follows_last_switch, failed_reload_is_noop_partial "
+                    "(+ missing_path / new_instance versions), generations_monotone, single_generation_new_instance / _cdb / "
+                    "_partial; the full statements single_generation_full and failed_reload_is_noop_full are kept as defs with "
+                    "proved negations (same-path RocksDB catch-up, known findings); atomicity of acquire vs reload is decided by "
+                    "kernel evaluation over the lock table re-extracted from the source. Correspondence: a deterministic "
+                    "scheduler runs the real FBDNSDB step by step at the verif-tag yield points under a model-derived "
+                    "enabledness relation; per-section generation stamps of every response, reload error classes and the final "
+                    "path are compared with the model replaying the same schedule (CDB and RocksDB; full, partial, missing, "
+                    "corrupt, validation-failing and timing-out reloads).",
+            "note": "Partial: free-running (no yield points) stress is exploration only and shared with C14; response cache "
+                    "(C12) and reference counting (C06) are separate models; RocksDB primary/secondary semantics trusted.",
+        },
+        "trusted": COMMON_TRUSTED + [
+            "RocksDB secondary catch-up semantics; goroutine identification via runtime.Stack in the scheduler",
+        ],
+        "rule": "exhaustive interleavings of 1 query x 1 reload (x publish) on CDB plus random schedules up to 4 queries x 3 "
+                "reloads x 3 publishes on CDB and RocksDB (quick ~1160 schedules, thorough ~29700); distinct = distinct (op, "
+                "output shape)",
+        "assumptions": ["publishes never lower a generation at a path (forward)"],
+    },
+    "C08": {
+        "shrink": False,
+        "run_timeout": 3600,
+        "manifest": {
+            "text": "Lean 4 theorems over a model of dnsdata/rdb ApplyDiff with the line codec as a black box (so both key layouts "
+                    "are covered): applyDiff_eq_compile / applyDiff_eq_fresh_compile (for any store holding, up to value order, "
+                    "the database of file A and any diff whose +/- payloads satisfy A + plus = B + minus as multisets of the lines "
+                    "reaching the codec, in any line order, ApplyDiff succeeds and the store holds key by key the value multiset of "
+                    "compile(B)), applyDiff_chain (induction over any chain of diffs), applyDiff_all_or_nothing(_malformed) and "
+                    "applyDiff_absent_record_fails (error, nothing written), applyDiff_order_irrelevant(_error); "
+                    "applyDiff_eq_compile_rawLines: the full statement over RAW file lines, proved (ApplyDiff filters payloads "
+                    "like the compiler since the repair: leading blanks trimmed, payloads under 2 bytes and # payloads skipped). "
+                    "Correspondence: real Preprocess + real rdb compiler + real ApplyDiff on generated file pairs and chains "
+                    "(duplicate lines, several values per key, moving range points, failing steps of every kind), patched database "
+                    "compared with a fresh compile of B (sorted dump) and, for failing steps, byte-identical raw dump before/after; "
+                    "the model replays the same chain from the real codec output.",
+            "note": "Partial: ConvertLn/Preprocess are used as black boxes (their output is an input of the model); RocksDB engine "
+                    "(WriteBatch atomicity) trusted; lines over 64 KiB and NewUpdater errors not modelled. Known finding: "
+                    "C08-dot-serial-mtime ('.' lines take their serial from file mtimes).",
+        },
+        "trusted": COMMON_TRUSTED + [
+            "dnsdata.Codec.ConvertLn / Preprocess as black boxes (real output fed to the model); RocksDB WriteBatch atomicity",
+        ],
+        "rule": "56 (thorough ~400) chains of 1-5 diffs + 16 (~100) mtime cases per seed on rdb v1/v2 (some starting databases built "
+                "by the SST builder); files with leading-blank and one-byte lines, diffs with skipped noise lines; every failing-step kind (absent value/key, one removal too many, unknown type, bad op byte, codec rejection after trimming, absent range point) interleaved; distinct = distinct (op, output shape)",
+        "assumptions": ["values shorter than 2^32 bytes (SmallConv)"],
+    },
+    "C12": {
+        "run_timeout": 3600,
+        "shrink": False,
+        "manifest": {
+            "text": "Lean 4 theorems over a model of the response cache: cache_key_format_matches (format literal re-extracted "
+                    "from handler.go) and cacheKey_injective (Go's rendering of \"%.3d/%d/%d/%s\" on a [2]byte location id, qtype, "
+                    "qclass, name is injective for all inputs; the pre-fix format is proved to collide); for every interleaving of "
+                    "any number of queries, reloads and evictions on the protocol machine (acquire generation under RLock, lookup, "
+                    "compute, generation-checked insert, send, reload = gen++ and purge): cache_entry_current, "
+                    "no_stale_after_reload (a query is only ever sent the uncached response of a generation not older than the one "
+                    "it acquired), cache_invisible_seq (in every sequential history the cached handler sends exactly what the "
+                    "cache-less handler sends); old_protocol_stale documents the repaired race. Correspondence on every run: fmt "
+                    "rendering against real Sprintf; hit/miss/generation traces of a real cache-enabled handler against the "
+                    "machine on random histories with reloads and on yield-hook schedules (query parked at each serve.* point "
+                    "across a full reload) on CDB and RocksDB v1/v2; property oracle: cache-enabled and cache-less twin handlers "
+                    "fed the same history answer identically.",
+            "note": "Partial: 'uncached response is a function of the key components' is a hypothesis (KeyDetermines) checked by "
+                    "the twin-handler oracle, not proved; expiry/LRU eviction covered only as an arbitrary evict step; catch-up "
+                    "reloads are C05.",
+        },
+        "trusted": COMMON_TRUSTED + [
+            "harness scheduler and verif-tag yield hooks; mapping of yield points to machine positions in Driver/C12.lean",
+            "golang-lru and coredns cache plugin internals (only Add/Get/Purge behaviour used)",
+        ],
+        "rule": "300 (thorough 5000) key renderings with boundary numbers; old-format collision pairs; every yield point x warm/cold "
+                "x reload x release x fresh queries per backend; 36 (1500) random sequential histories of 8-48 queries with <=3 "
+                "reloads; 60 (3000) random schedules with <=3 parked queries; 10 client profiles",
+        "assumptions": ["KeyDetermines: the uncached response depends only on (location, qtype, qclass, name) within one generation"],
     },
 }
